@@ -482,7 +482,7 @@ def check_stale(project: Project, rep):
                     stale_derived = False
                     if not stale_direct and x.id != new:
                         for d in rd[nd.id].get(x.id, ()):
-                            if src in def_deps_of(cfg, d, x.id) and d not in after and flip_node in cfg.reachable_from(d):
+                            if src in def_deps_of(cfg, d, x.id) and d not in after and d in rd[flip_node].get(x.id, ()):
                                 stale_derived = True
                     if stale_direct or stale_derived:
                         rep.refuted("KN-STALE", fi, a,
@@ -553,7 +553,9 @@ def check_stale(project: Project, rep):
                         live = rd[nd.id].get(v, set())
                         if y in flips:
                             continue  # the quantity is flipped itself
-                        on_path = flip_node in cfg.reachable_from(d) and nd.id in cfg.reachable_from(flip_node)
+                        # the definition of y must still be the live one WHEN the flip happens (inside a loop over blocks the
+                        # flip of one round is reachable from everything of the round before, through re-definitions)
+                        on_path = d in rd[flip_node].get(y, ()) and nd.id in cfg.reachable_from(flip_node)
                         if flip_node in live and flip_node not in seen and d != flip_node and on_path:
                             rep.refuted("KN-STALE", fi, a,
                                         f"`{y}` was computed from `{v}` before the sign flip `{v} = -{v}` for negative correlation but "
